@@ -181,6 +181,7 @@ func wsmsgRun(script []string, w *bufio.Writer) {
 			switch f[0] {
 			case "new":
 				max, bufSize = atoi(f[1]), atoi(f[2])
+				wsmsgUTF8 = len(f) > 3 && f[3] == "utf8"
 				wire, nframes, cuts = nil, 0, nil
 				fmt.Fprintf(w, "< ok\n")
 			case "msg", "tail":
@@ -228,6 +229,11 @@ func wsmsgRun(script []string, w *bufio.Writer) {
 	}
 }
 
+// wsmsgUTF8: the streams of this script validate text payloads (ValidateUTF8(true), off by default). A conforming peer sends
+// valid UTF-8 in text messages, so delivery must be the same; the generator then draws valid multi-byte text (cut into
+// fragments at any byte position) and binary payloads that are not valid UTF-8.
+var wsmsgUTF8 bool
+
 func wsmsgRead(w *bufio.Writer, api string, async bool, max, bufSize int, segs [][]byte, pre, bound int) {
 	ws, err := websocket.NewWebsocketStream(wsIoc, nil, websocket.RoleClient)
 	if err != nil {
@@ -244,6 +250,9 @@ func wsmsgRead(w *bufio.Writer, api string, async bool, max, bufSize int, segs [
 		panic(err)
 	}
 	ws.SetMaxMessageSize(max)
+	if wsmsgUTF8 {
+		ws.ValidateUTF8(true)
+	}
 	var ctl []string
 	ws.SetControlCallback(func(mt websocket.MessageType, payload []byte) {
 		ctl = append(ctl, fmt.Sprintf("%d:%s", int(mt), wsHx(payload)))
@@ -501,6 +510,7 @@ func wsmsgGen(r *rng, maxops int, w *bufio.Writer) {
 	if r.intn(10) == 0 {
 		nmsg = 0
 	}
+	utf8 := r.intn(5) == 0 // the streams of this script validate text payloads
 	var lines []wsmsgLine
 	largest := 0
 	usedBig := false
@@ -512,7 +522,23 @@ func wsmsgGen(r *rng, maxops int, w *bufio.Writer) {
 		if n > largest {
 			largest = n
 		}
-		lines = append(lines, wsmsgLine{ty: 1 + r.intn(2), items: g.fragment(r.bytes(n))})
+		ty, payload := 1+r.intn(2), r.bytes(n)
+		if utf8 && ty == 1 {
+			// valid UTF-8 of exactly n bytes with 1- to 4-byte sequences (the fragmentation below cuts at byte positions,
+			// also inside a sequence, which RFC 6455 5.6 allows)
+			payload = payload[:0]
+			for len(payload) < n {
+				seq := [][]byte{{0x41 + byte(r.intn(26))}, {0xc3, 0xa9}, {0xe2, 0x82, 0xac}, {0xf0, 0x9f, 0x98, 0x80}, {0xed, 0x9f, 0xbf}, {0x7f}}[r.intn(6)]
+				if len(payload)+len(seq) > n {
+					seq = []byte{0x20}
+				}
+				payload = append(payload, seq...)
+			}
+		}
+		if utf8 && ty == 2 && n > 0 {
+			payload[r.intn(n)] = byte(r.pick(0x80, 0xc0, 0xff, 0xfe, 0xed)) // never valid UTF-8 on its own
+		}
+		lines = append(lines, wsmsgLine{ty: ty, items: g.fragment(payload)})
 	}
 	if r.intn(4) == 0 {
 		var items []wsmsgItem
@@ -540,7 +566,11 @@ func wsmsgGen(r *rng, maxops int, w *bufio.Writer) {
 			g.max = r.intn(largest)
 		}
 	}
-	fmt.Fprintf(w, "! new %d %d\n", g.max, buf)
+	if utf8 {
+		fmt.Fprintf(w, "! new %d %d utf8\n", g.max, buf)
+	} else {
+		fmt.Fprintf(w, "! new %d %d\n", g.max, buf)
+	}
 	var wire []byte
 	var starts []int
 	for _, l := range lines {
